@@ -24,7 +24,7 @@ func init() { drivers["config"] = runConfig }
 var proxyTypes = []string{"tcp", "udp", "http", "https", "tcpmux", "stcp", "xtcp", "sudp"}
 
 var nameStrings = []string{
-	"web", "ssh-1", "p_2", "ünïcödé", "日本語プロキシ", "😀", "with space", `q"uote`, "a.b", "UPPER", "x", "tab\there",
+	"web", "ssh-1", "p_2", " lead", "trail ", "\tboth\n", "MiXed", "ünïcödé", "日本語プロキシ", "😀", "with space", `q"uote`, "a.b", "UPPER", "x", "tab\there",
 	strings.Repeat("n", 70),
 }
 
@@ -560,6 +560,9 @@ func runConfig(cfg *runCfg) error {
 	for _, c := range d.tlsFlagCases() {
 		add(c)
 	}
+	for _, c := range d.concurrentLoads(g) {
+		add(c)
+	}
 	for _, c := range d.envCases(g, cfg.N/40+14) {
 		add(c)
 	}
@@ -580,6 +583,7 @@ func runConfig(cfg *runCfg) error {
 			"Definition NTEMPLATEOK := Eval vm_compute in (count_if is_template_ok cases : Z).\nPrint NTEMPLATEOK.\n" +
 			"Definition NENVOK := Eval vm_compute in (count_if is_env_case cases : Z).\nPrint NENVOK.\n" +
 			"Definition NENVEQ := Eval vm_compute in (count_if is_env_eq_case cases : Z).\nPrint NENVEQ.\n" +
+			"Definition NSTRICTREJ := Eval vm_compute in (sum_Z load_trace_strict_rejections cases : Z).\nPrint NSTRICTREJ.\n" +
 			"Definition NTLSFLAGON := Eval vm_compute in (count_if is_tls_flag_on cases : Z).\nPrint NTLSFLAGON.\n",
 	}
 	if err := cf.Write(cfg.Out); err != nil {
